@@ -8,7 +8,7 @@ structure.
 import asyncio
 import logging
 import os.path
-from datetime import UTC, datetime
+from datetime import UTC, date, datetime
 from email.message import EmailMessage
 from enum import StrEnum
 from pathlib import Path
@@ -475,15 +475,29 @@ class IMAPSearch:
 
     #########################################################################
     #
+    def _sent_date(self) -> date | None:
+        """
+        The date of the [RFC-822] Date: header of the message, or None if the
+        message has no Date: header or it can not be parsed as a date.
+        """
+        msg = self.ctx.msg()
+        if "date" not in msg:
+            return None
+        try:
+            return parsedate(str(msg["date"])).date()
+        except (TypeError, ValueError):
+            return None
+
+    #########################################################################
+    #
     async def _match_sentbefore(self) -> bool:
         """
         Messages whose [RFC-822] Date: header is earlier than the
         specified date.
         """
-        msg = self.ctx.msg()
-        if "date" not in msg:
+        msg_date = self._sent_date()
+        if msg_date is None:
             return False
-        msg_date = parsedate(msg["date"]).date()
         return msg_date < self.args["date"]
 
     #########################################################################
@@ -493,10 +507,9 @@ class IMAPSearch:
         Messages whose [RFC-822] Date: header is within the specified
         date.
         """
-        msg = self.ctx.msg()
-        if "date" not in msg:
+        msg_date = self._sent_date()
+        if msg_date is None:
             return False
-        msg_date = parsedate(msg["date"]).date()
         return msg_date == self.args["date"]
 
     #########################################################################
@@ -506,10 +519,9 @@ class IMAPSearch:
         Messages whose [RFC-822] Date: header is later than the
         specified date.
         """
-        msg = self.ctx.msg()
-        if "date" not in msg:
+        msg_date = self._sent_date()
+        if msg_date is None:
             return False
-        msg_date = parsedate(msg["date"]).date()
         return msg_date >= self.args["date"]
 
     #########################################################################
